@@ -152,6 +152,30 @@ pub fn blocks(ctx: &Ctx, rep: &mut Report) {
             }
         }
         rep.count("ber_points", (nrand / 16) as u64);
+        // rounding can hand BerExp an x that is negative by a few ulps (sigma' = sigma_max and
+        // an integer centre): ccs*exp(-x) is then ccs to 1e-15, so the outcome must be the one
+        // of x = 0 unless the bytes are within 2 units of the threshold (skipped)
+        for i in 0..(nrand / 64).min(200_000) {
+            let x = -(rng.gen::<f64>() * 1e-15) * (1 + i % 300) as f64 * 0.01;
+            let ccs = if i % 2 == 0 { SIGMIN_512 / rs::SIGMA_MAX } else { SIGMIN_1024 / rs::SIGMA_MAX };
+            let bytes: [u8; 7] = rng.gen();
+            let z = rs::ber_threshold(0.0, ccs);
+            let top = u64::from_be_bytes([bytes[0], bytes[1], bytes[2], bytes[3], bytes[4], bytes[5], bytes[6], 0]);
+            if (top >> 8).abs_diff(z >> 8) <= 2 {
+                continue;
+            }
+            rep.evaluations += 1;
+            let want = top < z;
+            match monitored(|| sp::ber_exp(x, ccs, bytes)) {
+                Err(p) => rep.violation(&format!("panic:ber_exp@{}", short_loc(&p.location)), format!("ber_exp({:e}, {}) panicked: {}", x, ccs, p.message), json!({"kind": "ber-neg", "x": x.to_bits().to_string(), "ccs": ccs.to_bits().to_string(), "bytes": bytes.to_vec()})),
+                Ok(got) => {
+                    if got != want {
+                        rep.violation("ber_exp:tiny-negative-x", format!("ber_exp(x = {:e}, ccs = {}) = {} but ccs*exp(-x) = ccs to 1e-15 and the bytes are {} the threshold", x, ccs, got, if want { "below" } else { "above" }), json!({"kind": "ber-neg", "x": x.to_bits().to_string(), "ccs": ccs.to_bits().to_string(), "bytes": bytes.to_vec()}));
+                    }
+                }
+            }
+            rep.count("ber_tiny_negative_x", 1);
+        }
         if w == 0 {
             rep.sample(json!({"block": "ber_exp", "x": 0.3, "ccs": 0.7, "threshold": rs::ber_threshold(0.3, 0.7).to_string(), "reference": format!("{:?}", rs::ber_exp(0.3, 0.7, &rs::ber_threshold(0.3, 0.7).to_be_bytes()[..7]))}));
         }
@@ -509,6 +533,15 @@ pub fn replay(r: &Value) -> bool {
         "ber" => {
             let b: Vec<u8> = r["bytes"].as_array().unwrap().iter().map(|x| x.as_u64().unwrap() as u8).collect();
             check_ber(f("x"), f("ccs"), b.try_into().unwrap(), &mut rep);
+        }
+        "ber-neg" => {
+            let b: Vec<u8> = r["bytes"].as_array().unwrap().iter().map(|x| x.as_u64().unwrap() as u8).collect();
+            let bytes: [u8; 7] = b.try_into().unwrap();
+            let got = monitored(|| sp::ber_exp(f("x"), f("ccs"), bytes));
+            let z = rs::ber_threshold(0.0, f("ccs"));
+            let top = u64::from_be_bytes([bytes[0], bytes[1], bytes[2], bytes[3], bytes[4], bytes[5], bytes[6], 0]);
+            println!("ber_exp(x = {:e}) -> {:?}; expected {}", f("x"), got.as_ref().ok(), top < z);
+            return matches!(got, Ok(g) if g == (top < z));
         }
         "sampler" => {
             let prefix: Vec<u8> = r["prefix"].as_array().unwrap().iter().map(|x| x.as_u64().unwrap() as u8).collect();
